@@ -16,7 +16,7 @@ NOTES = ("Technique family: machine-checked proof in Lean 4. Every check = (1) f
 CLAIMS = {}
 
 CLAIMS["C01"] = {
-    "text": "Theorems: chunking then reassembly is the identity for both senders, any window / chunk size / message (C01_pump_reassembles, C01_sendAll_reassembles[_code]), for any sequence of messages with count, order and boundaries preserved (C01_sendAll_many); the reader never hands out more bytes than the frames it was fed carried, for any frame list (C01_reader_no_fabricated_bytes); "
+    "text": "Theorems: chunking then reassembly is the identity for both senders, any window / chunk size / message (C01_pump_reassembles, C01_sendAll_reassembles[_code]), for any sequence of messages with count, order and boundaries preserved (C01_sendAll_many); the reader never hands out more bytes than the frames it was fed carried, for any frame list (C01_reader_no_fabricated_bytes), every delivered message has exactly its envelope's declared length (C01_reader_msg_has_envelope) and a framing error is final (C01_reader_error_final); "
             "reassembly is compositional (C01_parse_append); end to end over the two endpoint models composed through ANY FIFO carrier prefix, for every interleaving of "
             "calls, frames from the peer, credit, cancellations and context ends: the messages a handler has received are a prefix of those the caller submitted "
             "(C01_request_prefix), likewise responses (C01_response_prefix), nothing is fabricated, duplicated or reordered (C01_request_no_fabrication), and COMPLETENESS: when a RecvMsg of the caller returned end-of-stream "
